@@ -187,13 +187,20 @@ def gen_shifts(t, Tr, m):
             s += specimpl(G, Tr, rty, sty, m, req(b), f'{a}.bn_ops_{m}_res({amt(b)})', TN)
             # the reference/assign forms delegate to the by-value trait form; when that one cannot carry an
             # `ensures` (named-return limitation) all they know - and state - is the trait-level `r == *_spec`
-            named = named and inh_named
-            fns.append(fn_entry(key, named, f'{a}.bn_ops_{m}_post({amt(b)}, r)' if named else None,
-                                canon(t, 'val') if inherent else None))
+            if inh_named or inherent or not named:
+                named = named and inh_named
+                fns.append(fn_entry(key, named, f'{a}.bn_ops_{m}_post({amt(b)}, r)' if named else None,
+                                    canon(t, 'val') if inherent else None))
+            else:
+                # value-level postcondition recovered from `r == *_spec` by the existence lemma bn_lemma_ops_val_*
+                fns.append(fn_entry(key, True, f'{a}.bn_ops_{m}_vpost({amt(b)}, r)', f'bn_lemma_ops_val_{t}::<N>({a}, {a}, {amt(b)});'))
         for key, rty, b in [(f'impl({Tr}Assign<{P}>for{TN})::{m}_assign', P, 'rhs'),
                             (f'impl({Tr}Assign<&{P}>for{TN})::{m}_assign', f'&{P}', '(*rhs)')]:
             s += specimpl(G, Tr + 'Assign', rty, TN, m + '_assign', req(b), f'(*self).bn_ops_{m}_res({amt(b)})', TN, assign=True)
-            fns.append(fn_entry(key, False, f'(*old(self)).bn_ops_{m}_post({amt(b)}, *final(self))' if inh_named else None))
+            if inh_named:
+                fns.append(fn_entry(key, False, f'(*old(self)).bn_ops_{m}_post({amt(b)}, *final(self))'))
+            else:
+                fns.append(fn_entry(key, False, f'(*old(self)).bn_ops_{m}_vpost({amt(b)}, *final(self))', f'bn_lemma_ops_val_{t}::<N>(*self, *self, {amt(b)});'))
         specs.append(f'//! spec bn_ops_s_{t}_{m}_{pname}\n' + s)
     return ''.join(specs) + ''.join(fns)
 
@@ -216,7 +223,7 @@ def main():
         # a leading comment line is not an entry: put it after the first header instead
         first, rest = txt.split('\n', 1)
         h, rest2 = rest.split('\n', 1)
-        txt = h + '\n' + first + '\n' + rest2
+        txt = '//! scope (ops_.*|numtraits.*)\n' + h + '\n' + first + '\n' + rest2
         if '--stdout' in sys.argv:
             sys.stdout.write(txt)
         else:
